@@ -33,8 +33,11 @@ CHECKS = {
     "C15": {"level": "fault_enumeration", "technique": "deterministic simulation of quit/resume histories with the quit injected after the j-th guess of a Markov level (every j in the thorough tier), restart with only .sav/.omn surviving, cache-size knob per process",
             "text": "Quit inside a Markov level at every position j (thorough) or sampled positions incl. first/last (quick), resume in a fresh process image with an empty memo table and an independently drawn optimizer size, followed by sampled tails (quit at a pop, inside the restored remainder, inside a later level); oracle: the restored remainder is exactly the missing strings, is never replayed later, and the rest of the run satisfies the C08 oracle.",
             "note": _TB + "; one known finding (K1) is keyed to 'quit inside the final pre-terminal's level'"},
+    "C12": {"level": "exploration", "technique": "deterministic simulation: real keypress thread under a seeded baton scheduler (PCT priorities/change points at traced source lines), virtual clock, scripted stdin faults; prefix/refinement oracle against the uninterrupted run",
+            "text": "The real keyboard thread runs on a real OS thread but only while holding the scheduler's baton; every interleaving decision, stdin event (status/help/junk/quit/EOF/closed/lost/EIO/undecodable/silent), sleep and clock reading is the simulator's. Oracle: without an effective quit the stream equals the uninterrupted one; with one it is a prefix cut at a legal point no later than the current pre-terminal / next Markov guess, with a save file from which the rest resumes exactly.",
+            "note": _TB + "; pre-emption granularity = source lines of the session code and seam calls; tty/SIGINT not modelled"},
 }
 
 _PENDING = "check not built yet in this round (planned: DESIGN.md §6); not claimed until its evidence exists"
 NOT_APPLICABLE = {p: _PENDING for p in
-                  ["C03", "C05", "C06", "C07", "C09", "C10", "C11", "C12", "C13", "C14", "C16", "C17", "C18", "C19", "C20"]}
+                  ["C03", "C05", "C06", "C07", "C09", "C10", "C11", "C13", "C14", "C16", "C17", "C18", "C19", "C20"]}
